@@ -141,9 +141,12 @@ package querylog
 //@   loop 1 invariant oldestNano == 0 || oldestNano == lastTS
 
 // Frame assumptions (bodies not verified here): the two searches fill the client cache and do I/O but do not write *params.
+//@ ghost var memCount int
+//@ ghost var fileCount int
 //@ func (l *queryLog) searchMemory(ctx context.Context, params *searchParams, cache clientCache) (entries []*logEntry, total int)
 //@   trusted
-//@   modifies entries(cache), lastTS, reqLimit
+//@   ghost at return: memCount = len(entries)
+//@   modifies entries(cache), lastTS, reqLimit, memCount
 //@ define totalLimitSpec(offset int, limit int) int = (limit > 9223372036854775807 - offset ? 9223372036854775807 : offset + limit)
 
 //@ func (s *searchParams) valid() (ok bool)
@@ -165,7 +168,8 @@ package querylog
 //@ func (l *queryLog) searchFiles(ctx context.Context, params *searchParams, cache clientCache) (entries []*logEntry, oldest time.Time, total int)
 //@   property C07
 //@   requires params.limit > 0 && params.offset >= 0
-//@   modifies entries(cache), lastTS, reqLimit, fpos
+//@   ghost at return: fileCount = len(entries)
+//@   modifies entries(cache), lastTS, reqLimit, fpos, fileCount
 //@   ensures reads-offset-plus-limit: reqLimit == old(reqLimit) || reqLimit == totalLimitSpec(old(params.offset), old(params.limit))
 
 //@ func (l *queryLog) search(ctx context.Context, params *searchParams) (entries []*logEntry, oldest time.Time)
@@ -173,6 +177,8 @@ package querylog
 //@   modifies *
 //@   ensures page-size: old(params.limit) >= 0 && old(params.offset) >= 0 ==> len(entries) <= old(params.limit)
 //@   ensures malformed-page-empty: old(params.limit) <= 0 || old(params.offset) < 0 ==> len(entries) == 0
+//@   ensures page-exact: old(params.limit) > 0 && old(params.offset) >= 0 ==> len(entries) == max(min(memCount + fileCount, totalLimitSpec(old(params.offset), old(params.limit))) - old(params.offset), 0)
+//@   ensures cursor-is-last-entry: len(entries) > 0 ==> oldest == entries[len(entries) - 1].Time
 
 // ---- C11: routes are registered through the authenticating helper with a non-empty method ----
 // (an empty method is reserved for the DNS-over-HTTPS resolver paths and skips authentication in home.httpRegister)
